@@ -418,6 +418,7 @@ def evaluate(case: GE.Case, model: ir.Model, ctx=None, want: str | None = None, 
             found.append(("outputs-unknown", "no evaluator could compare"))
         return found
     confirmed = []
+    probed: dict[str, bool] = {}
     for e, per_input in differ.items():
         for j, d in per_input.items():
             contradicted = [o for o in GE.EVALUATORS if o != e and j in equal.get(o, set())]
@@ -426,12 +427,63 @@ def evaluate(case: GE.Case, model: ir.Model, ctx=None, want: str | None = None, 
                 if ctx is not None:
                     ctx.note(f"evaluators split: {e} sees '{d}' on input set {j}, {contradicted} compare equal; "
                              f"seed={case.info['seed']} features={case.info['planted']}")
-            else:
-                confirmed.append(f"{e} on input set {j}: {d}")
+                continue
+            # a lone evaluator sees a difference: is it at least consistent with ITSELF on these two models?
+            if e not in probed:
+                probed[e] = _evaluator_self_consistent(e, case, proto, j)
+                count(f"self_consistency_probe:{e}:" + ("consistent" if probed[e] else "inconsistent"))
+            if not probed[e]:
+                count("report_only_evaluator_self_inconsistent:" + e)
+                if ctx is not None:
+                    ctx.note(f"{e} computes different outputs for M (or P(M)) and the same model with its functions "
+                             f"inlined by onnx.inliner: no verdict from it; seed={case.info['seed']} features={case.info['planted']}")
+                continue
+            confirmed.append(f"{e} on input set {j}: {d}")
     if confirmed:
         found.append(("outputs-differ", "P(M) computes different outputs than M - " + "; ".join(confirmed[:4])))
     return found
 
+
+
+def _evaluator_self_consistent(e: str, case: GE.Case, proto, j: int) -> bool:
+    """Metamorphic probe of an EVALUATOR (never of onnx_ir): M and P(M) are re-encoded by onnx's own function
+    inliner (``onnx.inliner.inline_local_functions``, C++, independent of onnx_ir and semantics preserving) and
+    the evaluator is asked again on the same inputs.  An evaluator that does not reproduce its own outputs on a
+    re-encoding of the same model has no say about that model (observed: onnxruntime 1.30 miscomputes a model
+    whose function is called from the main graph and from a control-flow branch, and computes the onnx-inlined
+    form of the very same model correctly)."""
+    import onnx.inliner
+
+    if j >= 1000:
+        k = j - 1000
+        inputs, over = [case.inputs[case.override_sets[k][0]]], [case.override_sets[k][1]]
+        base = case.override_baseline[e][k].outputs
+    else:
+        inputs, over = [case.inputs[j]], None
+        base = case.baseline[e][j].outputs
+
+    def run(p):
+        rs = GE.RUNNERS[e](p, inputs, over) if over is not None else GE.RUNNERS[e](p, inputs)
+        return rs[0] if rs else None
+
+    for original, reference in ((case.proto, base), (proto, None)):
+        if not original.functions:
+            continue
+        try:
+            inlined = onnx.inliner.inline_local_functions(original)
+        except Exception:  # noqa: BLE001 - no re-encoding available: nothing learnt
+            continue
+        if reference is None:
+            r0 = run(original)
+            if r0 is None or not r0.ok:
+                continue
+            reference = r0.outputs
+        r1 = run(inlined)
+        if r1 is None or not r1.ok:
+            continue
+        if GE.same_outputs(reference, r1.outputs) is not None:
+            return False
+    return True
 
 
 # ---- shrinking and signature -------------------------------------------------------------------------------
